@@ -66,6 +66,8 @@ class Builder:
             e["clock"] = clock_fault(rng, int((params or {}).get("n_trial_calculation", 4) or 4))
         if "arpack" in allow and rng.random() < 0.7:
             e["arpack"] = {"mode": rng.choice(["dense", "sparse", "orth", "same"]), "seed": _seed(rng)}
+            if "interrupt" in allow and rng.random() < 0.5:
+                e["arpack"]["fail_at"] = rng.randint(1, 5)  # this ARPACK call does not converge
         if "joblib" in allow and rng.random() < 0.8:
             e["joblib"] = {
                 "mode": rng.choice(["reorder", "reorder", "batch", "isolate", "twice"]),
@@ -255,7 +257,7 @@ def subj_pcovr(b, kind, pattern):
         if not sq:
             alts.append({"regressor": "precomputed"})
             alts.append({"regressor": "precomputed"})
-    return dict(params=p, fitA=fitA, fitB=fitB, reads=reads, envs=["rng_always"], repeatable=rep, fit_transform=True, ykey="Y", alts=alts)
+    return dict(params=p, fitA=fitA, fitB=fitB, reads=reads, envs=["rng_always"] + (["arpack"] if solver == "arpack" else []), repeatable=rep, fit_transform=True, ykey="Y", alts=alts)
 
 
 def subj_kpcovr(b, kind, pattern):
@@ -286,7 +288,7 @@ def subj_kpcovr(b, kind, pattern):
         reads = [("transform", {"X": KT}), ("predict", {"X": KT}), ("transform", {"X": "$LASTX"}), ("predict", {"X": "$LASTX"})]
         rep = not (solver in ("arpack", "randomized") and p.get("random_state") is None)
         alts = [{"center": not p.get("center", False)}, {"mixing": rng.choice([0.2, 0.7])}, {"center": not p.get("center", False)}]
-        return dict(params=p, fitA=fitA, fitB=fitB, reads=reads, envs=["rng_always"], repeatable=rep, fit_transform=False, ykey="Y", alts=alts)
+        return dict(params=p, fitA=fitA, fitB=fitB, reads=reads, envs=["rng_always"] + (["arpack"] if solver == "arpack" else []), repeatable=rep, fit_transform=False, ykey="Y", alts=alts)
     if solver in ("arpack", "randomized"):
         p["random_state"] = rng.randrange(1000) if (pattern == "repeat" or rng.random() < 0.6) else None
     if rng.random() < 0.4:
@@ -317,7 +319,7 @@ def subj_kpcovr(b, kind, pattern):
         if kern == "rbf":
             kw2["gamma"] = p["gamma"]
         alts.append({"regressor": {"$est": ["KernelRidge", kw2]}})
-    return dict(params=p, fitA=fitA, fitB=fitB, reads=reads, envs=["rng_always"], repeatable=rep, fit_transform=False, ykey="Y", alts=alts)
+    return dict(params=p, fitA=fitA, fitB=fitB, reads=reads, envs=["rng_always"] + (["arpack"] if solver == "arpack" else []), repeatable=rep, fit_transform=False, ykey="Y", alts=alts)
 
 
 def subj_scaler(b, kind, pattern):
